@@ -410,6 +410,7 @@ def run_concrete(func, kwargs, values):
 def run_symbolic_path(func, kwargs, seed, opts, profile=None):
     E.full_reset()
     E.zdag = bool(opts.get("zdag", False))
+    E.abs_gen = bool(opts.get("abs_gen", False))
     lapack.clear_known()
     shim.symbolic(True)
     T = SymT(seed, opts)
@@ -512,11 +513,14 @@ def explore(func, kwargs, opts):
                 bnd.append(z3.And(x >= -8, x <= 8))
                 if vi in E.positive:
                     bnd.append(x >= z3.RealVal("1/16"))
+                else:
+                    bnd.append(z3.Or(x >= z3.RealVal("1/16"), x <= z3.RealVal("-1/16")))
             cur = [z3.And(E.zv(vi) >= z3.RealVal(str(E.shadow[vi])) - z3.RealVal("1/1000"), E.zv(vi) <= z3.RealVal(str(E.shadow[vi])) + z3.RealVal("1/1000"))
                    for vi in E.inputs]
-            moderate = all(abs(E.shadow[vi]) <= 8 and (vi not in E.positive or E.shadow[vi] >= Fraction(1, 16)) for vi in E.inputs)
+            moderate = all(Fraction(1, 16) <= abs(E.shadow[vi]) <= 8 for vi in E.inputs) and all(ok for k, e, ok in E.domain)
             if not moderate:
-                r, mdl = smt.check(list(E.pre) + list(E.defs) + list(E.pc), "tv-seed", timeout_ms=3000, want_model=True, bounds=bnd)
+                r, mdl = smt.check(list(E.pre) + list(E.defs) + list(E.pc) + [e for k, e, ok in E.domain], "tv-seed", timeout_ms=3000,
+                                   want_model=True, bounds=bnd)
                 if r == "sat":
                     tv_values = {terms.VARS[vi]: str(smt.model_value(mdl, E.zv(vi))) for vi in E.inputs}
                 else:
